@@ -225,7 +225,44 @@ def incomplete(job):
 JOB_TIMEOUT = {"quick": 400, "thorough": 1800}
 
 
+XHAIR = '''
+import pyvaporation as pv
+from pyvaporation.components import Components
+from pyvaporation.diffusion_curve import DiffusionCurve
+from pyvaporation.mixtures import Mixtures
+from pyvaporation.mixtures.mixture import Composition
+
+
+def mixture_without_parameters_rejected(x: float) -> str:
+    """
+    raises: ValueError
+    post: False
+    """
+    return pv.Mixture(name="m", first_component=Components.H2O, second_component=Components.EtOH).name
+
+
+def curve_with_neither_fluxes_nor_permeances_rejected(t: float) -> float:
+    """
+    pre: 273 < t < 400
+    raises: ValueError
+    post: False
+    """
+    return DiffusionCurve(mixture=Mixtures.H2O_EtOH, membrane_name="m", feed_temperature=t, feed_compositions=[Composition(0.5, "weight")]).feed_temperature
+'''
+
+
+def crosshair(job):
+    from .. import xhair
+    xhair.run_contracts(job, "C19", XHAIR, timeout=30)
+
+
 def jobs(tier):
+    if tier == "thorough":
+        return _jobs(tier) + [("crosshair", "crosshair", {})]
+    return _jobs(tier)
+
+
+def _jobs(tier):
     js = [("both_%s_N%d" % (proc.SHORT.get(e, e), N), "both_specified", {"entry": e, "N": N}) for e in ENTRY for N in ((1,) if tier == "quick" else (1, 2))]
     js.append(("incomplete", "incomplete", {}))
     return js
